@@ -91,7 +91,9 @@ func (m *RWMutex) Lock() {
 	}
 	sched.Point("RWMutex.Lock")
 	s := mstate(e, m)
+	s.WaitingWriters++
 	sched.Block(func() bool { return s.Writer == 0 && len(s.Readers) == 0 }, "rwmutex (write)")
+	s.WaitingWriters--
 	s.Writer = sched.CurrentTask() + 1
 }
 
@@ -123,7 +125,7 @@ func (m *RWMutex) RLock() {
 	}
 	sched.Point("RWMutex.RLock")
 	s := mstate(e, m)
-	sched.Block(func() bool { return s.Writer == 0 }, "rwmutex (read)")
+	sched.Block(func() bool { return s.Writer == 0 && s.WaitingWriters == 0 }, "rwmutex (read)")
 	s.Readers[sched.CurrentTask()]++
 }
 
